@@ -106,6 +106,11 @@ REGRESS = [
     ("r4-wide-bool-tuple-match", "pub fn main(x: (" + ", ".join(["bool"] * 40) + ")) -> u8 { match x { _ => 1u8 } }"),
     ("r4-wide-struct-one-field-pattern", "struct S { " + ", ".join("f%d: u8" % i for i in range(40)) + " }\n"
      "pub fn main(x: S) -> u8 { match x { S { f0: 0, .. } => 1u8, _ => 2u8 } }"),
+    ("r4-usize-literal-too-large", "pub fn main(x: usize) -> bool { x == 4294967296usize }"),
+    ("r4-usize-literal-max", "pub fn main(x: usize) -> bool { x == 4294967295usize }"),
+    ("r4-diagonal-match", "pub fn main(t: (" + ", ".join(["bool"] * 24) + ")) -> u8 { match t { "
+     + " ".join("(" + ", ".join("true" if j == i else "_" for j in range(24)) + ") => %du8," % i for i in range(24))
+     + " (" + ", ".join(["false"] * 24) + ") => 99u8 } }"),
     ("r4-doubling-structs-let", "struct S0 { a: [u8; 1] }\n" + "".join("struct S%d { a: S%d, b: S%d }\n" % (i, i - 1, i - 1) for i in range(1, 13))
      + "pub fn main(x: S12, y: u8) -> u8 { let z = x; y }"),
 ]
